@@ -217,7 +217,14 @@ func (vc *VC) intrinsic(st *State, name string, args []Val, c *ssa.CallCommon, r
 		return BoolV(vc.bytesEqual(st, args[0], args[1])), true
 	case "bytes.Compare":
 		return IntV(vc.bytesCompare(st, args[0], args[1]), tInt), true
-	case "fmt.Sprintf", "fmt.Sprint", "fmt.Sprintln", "strconv.Itoa", "encoding/hex.EncodeToString":
+	case "fmt.Sprintf":
+		if r, ok := vc.sprintfModel(st, args, c); ok {
+			return r, true
+		}
+		vc.needStr()
+		vc.havocked[name] = true
+		return IntV(vc.fresh("fmtstr", "Int"), types.Typ[types.String]), true
+	case "fmt.Sprint", "fmt.Sprintln", "strconv.Itoa", "encoding/hex.EncodeToString":
 		vc.needStr()
 		vc.havocked[name] = true
 		return IntV(vc.fresh("fmtstr", "Int"), types.Typ[types.String]), true
@@ -444,4 +451,123 @@ func (vc *VC) sortSlice(st *State, x Val, c *ssa.CallCommon) {
 			na, sv.Off, sv.Off, sv.Len, old, sv.Off, perm, sv.Off, old, na))
 		vc.heapSet(st, nm, arr2Sort(sorts[i]), Sto(h, sv.Reg, na))
 	}
+}
+
+// fmtOperands returns the original operands of a variadic fmt call (through the [n]any array SSA builds).
+func (vc *VC) fmtOperands(c *ssa.CallCommon, argIdx int) []ssa.Value {
+	if c == nil || len(c.Args) <= argIdx {
+		return nil
+	}
+	sl, ok := c.Args[argIdx].(*ssa.Slice)
+	if !ok {
+		return nil
+	}
+	al, ok := sl.X.(*ssa.Alloc)
+	if !ok || al.Referrers() == nil {
+		return nil
+	}
+	byIdx := map[int64]ssa.Value{}
+	for _, r := range *al.Referrers() {
+		ia, ok := r.(*ssa.IndexAddr)
+		if !ok || ia.Referrers() == nil {
+			continue
+		}
+		k, ok := ia.Index.(*ssa.Const)
+		if !ok {
+			return nil
+		}
+		for _, u := range *ia.Referrers() {
+			if s, ok := u.(*ssa.Store); ok {
+				var src ssa.Value = s.Val
+				if ci, ok := src.(*ssa.ChangeInterface); ok {
+					src = ci.X
+				}
+				if mi, ok := src.(*ssa.MakeInterface); ok {
+					src = mi.X
+				}
+				byIdx[k.Int64()] = src
+			}
+		}
+	}
+	out := make([]ssa.Value, len(byIdx))
+	for k, v := range byIdx {
+		if int(k) >= len(out) {
+			return nil
+		}
+		out[k] = v
+	}
+	return out
+}
+
+// sprintfModel: length of fmt.Sprintf for a literal format made of text, %s (string operand) and %0Nd / %d (integer operand).
+// ASSUMED of package fmt: %0Nd of a non-negative integer has max(N, number of decimal digits) characters.
+func (vc *VC) sprintfModel(st *State, args []Val, c *ssa.CallCommon) (Val, bool) {
+	if len(args) == 0 {
+		return Val{}, false
+	}
+	f, ok := vc.litOf(args[0].S)
+	if !ok {
+		return Val{}, false
+	}
+	ops := vc.fmtOperands(c, 1)
+	vc.needStr()
+	total := "0"
+	k := 0
+	for i := 0; i < len(f); i++ {
+		if f[i] != '%' {
+			total = Add(total, "1")
+			continue
+		}
+		// parse verb
+		j := i + 1
+		width := 0
+		zero := false
+		if j < len(f) && f[j] == '0' {
+			zero = true
+			j++
+		}
+		for j < len(f) && f[j] >= '0' && f[j] <= '9' {
+			width = width*10 + int(f[j]-'0')
+			j++
+		}
+		if j >= len(f) || k >= len(ops) || ops[k] == nil {
+			return Val{}, false
+		}
+		ov, ok := vc.vals[ops[k]]
+		if !ok {
+			if cst, isC := ops[k].(*ssa.Const); isC {
+				ov = vc.constVal(cst)
+			} else {
+				return Val{}, false
+			}
+		}
+		switch f[j] {
+		case 's':
+			if !isString(ops[k].Type()) || width != 0 {
+				return Val{}, false
+			}
+			total = Add(total, app("slen", ov.S))
+		case 'd':
+			if _, _, isI := intRange(ops[k].Type()); !isI {
+				return Val{}, false
+			}
+			vc.declareFun("declen", []string{"Int"}, "Int")
+			vc.axiom("declen_def", "(forall ((n Int)) (! (and (>= (declen n) 1) (=> (and (<= 0 n) (< n 10)) (= (declen n) 1)) (=> (and (<= 0 n) (< n 10000000000)) (<= (declen n) 10)) (=> (>= n 10000000000) (> (declen n) 10))) :pattern ((declen n))))")
+			d := app("declen", ov.S)
+			_ = zero
+			if width > 0 {
+				w := numI(int64(width))
+				total = Add(total, Ite(Ge(d, w), d, w))
+			} else {
+				total = Add(total, d)
+			}
+		default:
+			return Val{}, false
+		}
+		k++
+		i = j
+	}
+	r := vc.fresh("sprintf", "Int")
+	vc.define(Eq(app("slen", r), vc.name("fmtlen", "Int", total)))
+	return IntV(r, types.Typ[types.String]), true
 }
